@@ -231,12 +231,13 @@ class Tracer:
                 self.owner.setdefault(lid, m)
             self.owner[m] = m
         self.trace = []
+        self.suppress = 0             # > 0 while inside a recursive activation (not traced, with all it calls)
         self.active = []
         self.last = {}                # frame id -> last line id seen
         self.exc_lines = []
 
     def __call__(self, frame, event, arg):
-        if event != 'call':
+        if event != 'call' or self.suppress:
             return None
         code = frame.f_code
         fi = self.files.get(code.co_filename)
@@ -250,7 +251,13 @@ class Tracer:
             return None
         key = (code, id(s))
         if key in self.active:
-            return None
+            self.suppress += 1
+
+            def until_return(frame, event, arg):
+                if event == 'return':
+                    self.suppress -= 1
+                return until_return
+            return until_return
         self.active.append(key)
         fid = id(frame)
 
